@@ -21,6 +21,9 @@ INFO = {
  'C26-2': ('C26', 'shared helper insert_slot bumps the cell count before shifting the slots', 'a page that ends up exactly full: the shift writes two bytes past the slot array into the new cell'),
  'C26-3': ('C26', 'cursor_lower_bound hops at most once to the right sibling', 'an empty leaf right of the landing leaf (or two in a row): the cursor is invalid although larger entries exist'),
  'C26-4': ('C26', 'fast path for an insert at the end of a full leaf starts a one-entry right leaf whose right sibling link is never set', 'an insert at the end of a full leaf that is not the last leaf: the sibling chain is cut, scans lose everything to the right'),
+ 'C26-5': ('C26', 'leaf split arm finds the slot of the new entry with binary_search_by(..).unwrap_or_else(|i| i) instead of partition_point', 'an insert of a key that already occurs at least twice in its leaf and that overflows the leaf: the new entry lands inside the run of equal keys, a lookup returns an older payload'),
+ 'C26-6': ('C26', 'internal split promotes right_keys[0] instead of keys[mid] (keys[mid] is dropped)', 'an internal node split, then an operation on a key between keys[mid] and keys[mid+1] that is not the first entry of its leaf: lookup lands on another key, delete reports absent'),
+ 'C26-7': ('C26', 'append fast path in the leaf split arm: a new entry behind everything in a full leaf starts a fresh leaf with right sibling 0', 'a split of a leaf that is not the rightmost by a key that lands exactly at its end: the rest of the sibling chain is unreachable to scans'),
  'C27-3': ('C27', 'float zero normalisation by magnitude (|f| < EPSILON encodes as +0.0)', 'floats smaller than 2^-52 in magnitude: order and distinctness lost'),
  'C27-4': ('C27', 'escape bytes swapped through shared constants (00 -> FF 00)', 'values with an embedded 0x00 against values with a non-zero byte there; blobs lose prefix-freedom'),
  'C18-4': ('C18', 'allocate_page skips ensure_allocated (and its meta/bitmap flush) for pages taken from a hole', 'free, reuse, close without a further flush, reopen: the on-disk bitmap says free, the next allocation overwrites the page'),
